@@ -355,7 +355,11 @@ func (s *Sched) point(op string, pred func() bool) {
 // handlers call it on entry: the places where godi calls user code).
 func Yield(what string) {
 	s := cur
-	if s == nil || s.aborting {
+	if s == nil {
+		runtime.Gosched() // free-running (auxiliary -race pass): let the other goroutines in
+		return
+	}
+	if s.aborting {
 		return
 	}
 	s.point(what, nil)
